@@ -454,8 +454,13 @@ static void _fff_pth_interval(double* am, double* aM,
     a = *bufl;
 
     if (il == jr) {
-      *am=a;
-      *aM=a;
+      /* One element left: it is the order statistic of rank il.  This
+         exit is reached after rank p was found (stop1) with il == jr ==
+         p+1, so only the value(s) still missing may be assigned. */
+      if (stop1 == 0)
+        *am=a;
+      if (stop2 == 0)
+        *aM=a;
       return;
     }
 
